@@ -4,8 +4,8 @@ CONSTANTS
   WakeLat = 1
   Scripts <- MC_Scripts
   Deltas = {2, 3, 5}
-  MaxOps = 4
-  Horizon = 12
+  MaxOps = 3
+  Horizon = 14
 CONSTRAINT Bound
 INVARIANT MonOk
 INVARIANT NoSuppression
